@@ -537,8 +537,8 @@ def check_reference(ctx, R="C09.reference"):
 
 
 def check(ctx):
-    check_capture(ctx)
-    check_visitors(ctx)
-    check_locations(ctx)
-    check_arguments_helper(ctx)
-    check_reference(ctx)
+    ctx.run(check_capture)
+    ctx.run(check_visitors)
+    ctx.run(check_locations)
+    ctx.run(check_arguments_helper)
+    ctx.run(check_reference)
